@@ -10,6 +10,12 @@ pub enum Doc {
     Bool(bool),
     Int(i64),
     Str(String),
+    /// `#d<16 hex digits>`: an f64 by its bits (finite); json number / toml float
+    Float(u64),
+    /// `#u<digits>`: a u64 above i64::MAX (json only)
+    U64(u64),
+    /// `#T<hex of the text>`: a toml datetime (toml only)
+    Date(String),
     Arr(Vec<Doc>),
     Obj(BTreeMap<String, Doc>),
 }
@@ -78,6 +84,28 @@ impl<'a> P<'a> {
                         txt.parse::<i64>().ok().map(Doc::Int)
                     }
                     b's' => self.hex_string().map(Doc::Str),
+                    b'd' => {
+                        let st = self.i;
+                        while matches!(self.peek(), Some(c) if c.is_ascii_hexdigit()) { self.i += 1; }
+                        let txt = std::str::from_utf8(&self.b[st..self.i]).ok()?;
+                        if txt.len() != 16 { return None; }
+                        let bits = u64::from_str_radix(txt, 16).ok()?;
+                        if !f64::from_bits(bits).is_finite() { return None; }
+                        Some(Doc::Float(bits))
+                    }
+                    b'u' => {
+                        let st = self.i;
+                        while matches!(self.peek(), Some(c) if c.is_ascii_digit()) { self.i += 1; }
+                        let txt = std::str::from_utf8(&self.b[st..self.i]).ok()?;
+                        let v = txt.parse::<u64>().ok()?;
+                        if v <= i64::MAX as u64 { return None; }
+                        Some(Doc::U64(v))
+                    }
+                    b'T' => {
+                        let s = self.hex_string()?;
+                        s.parse::<toml::value::Datetime>().ok()?;
+                        Some(Doc::Date(s))
+                    }
                     _ => None,
                 }
             }
@@ -154,6 +182,18 @@ impl Doc {
             }
             Doc::Str(s) => {
                 o.push_str("#s");
+                hex_into(o, s.as_bytes());
+            }
+            Doc::Float(b) => {
+                o.push_str("#d");
+                o.push_str(&format!("{:016x}", b));
+            }
+            Doc::U64(v) => {
+                o.push_str("#u");
+                o.push_str(&v.to_string());
+            }
+            Doc::Date(s) => {
+                o.push_str("#T");
                 hex_into(o, s.as_bytes());
             }
             Doc::Arr(v) => {
@@ -277,6 +317,9 @@ impl Be for serde_json::Value {
             Doc::Bool(b) => V::Bool(*b),
             Doc::Int(i) => V::Number((*i).into()),
             Doc::Str(s) => V::String(s.clone()),
+            Doc::Float(b) => V::Number(serde_json::Number::from_f64(f64::from_bits(*b))?),
+            Doc::U64(v) => V::Number((*v).into()),
+            Doc::Date(_) => return None,
             Doc::Arr(v) => V::Array(v.iter().map(Self::from_doc).collect::<Option<Vec<_>>>()?),
             Doc::Obj(m) => {
                 let mut o = serde_json::Map::new();
@@ -292,7 +335,11 @@ impl Be for serde_json::Value {
         match self {
             V::Null => Doc::Null,
             V::Bool(b) => Doc::Bool(*b),
-            V::Number(n) => Doc::Int(n.as_i64().unwrap_or(0)),
+            V::Number(n) => {
+                if let Some(i) = n.as_i64() { Doc::Int(i) }
+                else if let Some(u) = n.as_u64() { Doc::U64(u) }
+                else { Doc::Float(n.as_f64().unwrap_or(0.0).to_bits()) }
+            }
             V::String(s) => Doc::Str(s.clone()),
             V::Array(v) => Doc::Arr(v.iter().map(Be::to_doc).collect()),
             V::Object(m) => Doc::Obj(m.iter().map(|(k, v)| (k.clone(), v.to_doc())).collect()),
@@ -339,6 +386,9 @@ impl Be for toml::Value {
             Doc::Bool(b) => V::Boolean(*b),
             Doc::Int(i) => V::Integer(*i),
             Doc::Str(s) => V::String(s.clone()),
+            Doc::Float(b) => V::Float(f64::from_bits(*b)),
+            Doc::U64(_) => return None,
+            Doc::Date(s) => V::Datetime(s.parse::<toml::value::Datetime>().ok()?),
             Doc::Arr(v) => V::Array(v.iter().map(Self::from_doc).collect::<Option<Vec<_>>>()?),
             Doc::Obj(m) => {
                 let mut o = toml::map::Map::new();
@@ -358,8 +408,8 @@ impl Be for toml::Value {
             V::Array(v) => Doc::Arr(v.iter().map(Be::to_doc).collect()),
             V::Table(m) => Doc::Obj(m.iter().map(|(k, v)| (k.clone(), v.to_doc())).collect()),
             // never produced by the generator
-            V::Float(_) => Doc::Str("?float".to_string()),
-            V::Datetime(_) => Doc::Str("?datetime".to_string()),
+            V::Float(f) => Doc::Float(f.to_bits()),
+            V::Datetime(d) => Doc::Date(d.to_string()),
         }
     }
     fn as_arr(&self) -> Option<&[Self]> {
